@@ -281,7 +281,20 @@ def rand_hash(rng):
         return '00' * 28
     if r < 0.1:
         return 'ff' * 28
+    if r < 0.2:
+        return printable_hash(rng).hex()
     return bytes(rng.randrange(256) for _ in range(28)).hex()
+
+
+B32 = b'qpzry9x8gf2tvdw0s3jn54khce6mua7l'
+
+
+def printable_hash(rng):
+    """28 bytes that read as text: a credential is arbitrary bytes, and some byte strings spell the beginning of a Bech32
+    address, a hex string or JSON when looked at as ASCII (header 0x61 is 'a', 0x73 is 's', 0x65 is 'e')"""
+    head = rng.choice([b'ddr1', b'ddr_test1', b'take1', b'take_test1', b'ddr', b'', b'0123abcd', b'{"a":', b'DDR1'])
+    body = bytes(rng.choice(B32) for _ in range(28))
+    return (head + body)[:28]
 
 
 def mk_addr(rng, kp, ks, net, ptr=None, same=False):
@@ -401,6 +414,10 @@ def gen_bytes_cases(ctx):
     for h in range(256):
         for ln in ((0, 27, 28, 29, 56, 57) if ctx.quick else (0, 1, 27, 28, 29, 31, 55, 56, 57, 58)):
             add(bytes([h]) + bytes(rng.randrange(256) for _ in range(ln)), f'header {h:02x}, {ln} payload bytes')
+    for h in (0x61, 0x60, 0x71, 0x73, 0x65, 0x41, 0x31, 0x01):       # 'a', '`', 'q', 's', 'e', 'A', '1': binary forms that are all ASCII
+        for _ in range(ctx.n(3, 30)):
+            add(bytes([h]) + printable_hash(rng), f'header {h:02x}, printable key hash')
+            add(bytes([h]) + printable_hash(rng) + printable_hash(rng), f'header {h:02x}, two printable hashes')
     for h in (0x40, 0x41, 0x50, 0x51):
         hb = bytes([h]) + bytes(rng.randrange(256) for _ in range(28))
         for tail, why in [(b'', 'no pointer'), (b'\x01\x02', '2 numbers'), (b'\x01\x02\x03\x04', '4 numbers'),
